@@ -19,13 +19,13 @@ EXPLANATION = (
 
 
 class C41(vlib.Spec):
-    model_vo = ["theories/HydroB/PC41.vo", "theories/HydroB/XLoc.vo"]
+    model_vo = ["theories/HydroB/PC41.vo", "theories/HydroB/XLoc.vo", "theories/HydroB/ModelRef.vo"]
     props_vo = "theories/Props/C41.vo"
     theorems = ["C41_guarded_accepted_partial", "C41_guarded_accepted_by_partitioner_model", "C41_tick_cycles_accepted_partial",
                 "C41_emitter_arities_partial", "C41_emitted_in_arities_partial", "C41_emitted_arities", "C41_refuted_sync_forward_ref", "C41_refuted_unimplemented"]
     crate, group, binary = "h_hydro_b", "hydro", "h_hydro_b"
     imports = ("From Coq Require Import List String NArith.\n"
-               "From HV Require Import HydroB.Model HydroB.GenOps HydroB.XPartition HydroB.XLoc.\nImport ListNotations.\nOpen Scope string_scope.")
+               "From HV Require Import HydroB.Model HydroB.GenOps HydroB.XPartition HydroB.XLoc HydroB.ModelRef.\nImport ListNotations.\nOpen Scope string_scope.")
     level = "other"
     trusted_base = ["coqc 8.16.1 kernel (vm_compute for case evaluation and the finite fragment/arity check)",
                     "hand-written Gallina model coq/theories/HydroB/Model.v of hydro_lang emit_core (fragment)",
@@ -44,6 +44,7 @@ class C41(vlib.Spec):
 
     def __init__(self):
         self.info = {}
+        self.dumps = {}
         self.table = hydrob.flows_table()
 
     def gen(self, rng, tier, n):
@@ -73,6 +74,7 @@ class C41(vlib.Spec):
                 self.info[case["flow"]] = {"unsupported": str(e)}
                 return 1
             self.info[case["flow"]] = info
+            self.dumps[case["flow"]] = res
             return term
         # drive case: generated code must run every tick without panic / hang
         if "ticks" in res and len(res["ticks"]) == len(case["ticks"]):
@@ -81,6 +83,17 @@ class C41(vlib.Spec):
 
     def finding_key(self, case, res):
         if case.get("k") != "dump":
+            # generated code panicking at run time: the captured handle of a singleton that a
+            # top-level bounded (no-replay) aggregate fills only in its first tick
+            if "Option::unwrap()" in str(res.get("panic", "")) and len(case.get("ticks", [])) >= 2:
+                d = self.dumps.get(case.get("flow")) or {}
+                for loc in d.get("locations", []):
+                    g = loc.get("flat") or {}
+                    nodes = g.get("nodes", [])
+                    for s_, sp, dst, dp, dl in g.get("edges", []):
+                        if nodes[dst] == "#handoff" and nodes[s_] in ("fold_no_replay", "reduce_no_replay") \
+                                and any(r and any(x[0] == dst for x in r) for r in g.get("refs", [])):
+                            return "singleton_ref/top-level-no-replay-unwrap-on-later-tick"
             return None
         if res.get("emit_panic") and "not yet implemented" in str(res["emit_panic"]):
             return "emit/todo-top-level-bounded-keyed-aggregate"
